@@ -72,8 +72,8 @@ theorem inlineRoot_facts (x : PNode) (h : x.bl2 .root = true) (hi : x.isInline2 
       cases fl with
       | true => exact ⟨by simp [PNode.flow, e1, List.isPrefixOf], by simp [PNode.flow, e2, List.isPrefixOf]⟩
       | false => simp [PNode.isInline2] at hi
-    | anchored a n => simp [PNode.bl2, PNode.sc2] at h
-    | alias a t => simp [PNode.bl2, PNode.sc2] at h
+    | anchored a n => simp [PNode.isInline2] at hi
+    | alias a t => exact ⟨by simp [PNode.flow, e1, List.isPrefixOf], by simp [PNode.flow, e2, List.isPrefixOf]⟩
   refine ⟨c, r, hx, hsp, hhash, ?_, ?_, key.1, key.2⟩
   · -- BOM
     intro e; subst e
@@ -107,8 +107,8 @@ theorem inlineRoot_facts (x : PNode) (h : x.bl2 .root = true) (hi : x.isInline2 
       | folded ch ind ex fo => simp [PNode.isInline2] at hi
     | seq fl st c items => cases fl <;> simp [PNode.flow, PNode.isInline2] at hx hi
     | map fl st c es => cases fl <;> simp [PNode.flow, PNode.isInline2] at hx hi
-    | anchored a n => simp [PNode.bl2, PNode.sc2] at h
-    | alias a t => simp [PNode.bl2, PNode.sc2] at h
+    | anchored a n => simp [PNode.isInline2] at hi
+    | alias a t => simp [PNode.flow] at hx
   · -- %
     intro e; subst e
     cases x with
@@ -140,8 +140,8 @@ theorem inlineRoot_facts (x : PNode) (h : x.bl2 .root = true) (hi : x.isInline2 
       | folded ch ind ex fo => simp [PNode.isInline2] at hi
     | seq fl st c items => cases fl <;> simp [PNode.flow, PNode.isInline2] at hx hi
     | map fl st c es => cases fl <;> simp [PNode.flow, PNode.isInline2] at hx hi
-    | anchored a n => simp [PNode.bl2, PNode.sc2] at h
-    | alias a t => simp [PNode.bl2, PNode.sc2] at h
+    | anchored a n => simp [PNode.isInline2] at hi
+    | alias a t => simp [PNode.flow] at hx
 
 /-! ## Lines of a document -/
 
@@ -221,6 +221,9 @@ theorem rootText_head (x : PNode) (m : Meta) (col : Nat) (h : x.bl2 .root = true
       | _ => simp [PNode.isInline2] at hi
     | seq fl st c items => cases fl <;> simp [PNode.isInline2, PNode.isBlockColl] at hi hb
     | map fl st c es => cases fl <;> simp [PNode.isInline2, PNode.isBlockColl] at hi hb
+    | anchored a n =>
+      exact ⟨'&', a ++ (n.valueR .root 0 (col + m.gap + 1 + a.length + 1) { m with gap := 0 }).1,
+        by simp [PNode.valueR, List.append_assoc], by decide⟩
     | _ => simp [PNode.isInline2] at hi
 
 theorem bare_flow_ne (x : PNode) (h : x.bl2 .root = true) (hb : bareOk x = true) (hi : x.isInline2 = true) : x.flow ≠ [] := by
@@ -240,8 +243,8 @@ theorem bare_flow_ne (x : PNode) (h : x.bl2 .root = true) (hb : bareOk x = true)
       subst this; simp [plainSafe, plainFirstOk] at hs
   | seq fl st c items => cases fl <;> simp [PNode.flow, PNode.isInline2] at he hi
   | map fl st c es => cases fl <;> simp [PNode.flow, PNode.isInline2] at he hi
-  | anchored a n => simp [PNode.bl2, PNode.sc2] at h
-  | alias a t => simp [PNode.bl2, PNode.sc2] at h
+  | anchored a n => simp [PNode.isInline2] at hi
+  | alias a t => simp [PNode.flow] at he
 
 
 theorem rootColl_first (x : PNode) (m : Meta) (col : Nat) (h : x.bl2 .root = true) (hb : x.isBlockColl = true) :
@@ -428,7 +431,8 @@ theorem parseDocBody_marker (x : PNode) (m : Meta) (hx : x.bl2 .root = true) (ht
   unfold parseDocBody
   simp only [Option.getD_some, fuelOf_wt, wt_append]
   have hb := bneed_value x .root hx 0 3 m
-  have hA := afterL x .root hx 0 3 m htr (Or.inr rfl) (fun _ => rfl)
+  have hA := afterL x .root hx 0 3 m htr (Or.inr rfl) (fun _ => rfl) false
+    (by intro hc; rw [noncompact_of_ctx x .root hx (by decide)] at hc; cases hc)
     ((wt (x.valueR .root 0 3 m).2 + wt (fillLines 0 fs)) * 4 + 8 + (x.valueR .root 0 3 m).1.length * 4) (fillLines 0 fs)
     (by omega) (by simp [Bound, skipFill_fillOnly]) (tail_fillOnly 0 _ fs hk)
   simp only [pnOf, if_true, show (Ctx.root == Ctx.seq) = false by rfl, show (Ctx.root == Ctx.map) = false by rfl] at hA
@@ -543,7 +547,8 @@ theorem bare_body_coll (x : PNode) (m : Meta) (hx : x.bl2 .root = true) (htr : t
     intro pre l post h2 hpre hfuel
     unfold parseDocBody
     simp only [Option.getD_none, List.length_nil, Nat.zero_mul, Nat.add_zero, fuelOf_wt]
-    have hA := afterL x .root hx 0 0 m htr (Or.inr rfl) (fun _ => rfl) (wt (l :: post ++ fillLines 0 fs) * 4 + 8 + 1)
+    have hA := afterL x .root hx 0 0 m htr (Or.inr rfl) (fun _ => rfl) false
+      (by intro hc; rw [noncompact_of_ctx x .root hx (by decide)] at hc; cases hc) (wt (l :: post ++ fillLines 0 fs) * 4 + 8 + 1)
       (fillLines 0 fs) (by rw [wt_append]; omega) (by simp [Bound, skipFill_fillOnly]) (tail_fillOnly 0 _ fs hk)
     rw [hfirst, parseAfter_trail _ _ _ _ _ _ (trailOk_trailText m.trail)] at hA
     simp only [pnOf, if_true, show (Ctx.root == Ctx.map) = false by rfl] at hA
@@ -642,6 +647,25 @@ theorem bare_body_coll (x : PNode) (m : Meta) (hx : x.bl2 .root = true) (htr : t
 
 
 /-- The body of a bare document whose root is a scalar, a flow collection or a block scalar. -/
+theorem valueR_col (n : PNode) (fl : Bool) (h : n.anchorable fl = true) (ctx : Ctx) (e c1 c2 : Nat) (m : Meta) :
+    n.valueR ctx e c1 m = n.valueR ctx e c2 m := by
+  cases n with
+  | str s st => cases st <;> rfl
+  | seq f st c items =>
+    cases f with
+    | true => rfl
+    | false =>
+      have hc : c = false := by simpa [PNode.anchorable] using h
+      subst hc; simp [PNode.valueR]
+  | map f st c es =>
+    cases f with
+    | true => rfl
+    | false =>
+      have hc : c = false := by simpa [PNode.anchorable] using h
+      subst hc; simp [PNode.valueR]
+  | anchored a n' => simp [PNode.anchorable] at h
+  | _ => rfl
+
 theorem fuel_split (n : Nat) : ∃ F, n * 4 + 8 = F + 2 := ⟨n * 4 + 6, by omega⟩
 
 theorem bare_body_leaf (x : PNode) (m : Meta) (hx : x.bl2 .root = true) (htr : trailOk2 m x = true) (hb : bareOk x = true)
@@ -758,6 +782,52 @@ theorem bare_body_leaf (x : PNode) (m : Meta) (hx : x.bl2 .root = true) (htr : t
       | _ => simp [PNode.isInline2] at hi
     | seq fl st c items => cases fl <;> simp [PNode.isInline2, PNode.isBlockColl] at hi hcoll
     | map fl st c es => cases fl <;> simp [PNode.isInline2, PNode.isBlockColl] at hi hcoll
+    | anchored a n =>
+      have hx' := hx
+      simp only [PNode.bl2, Bool.and_eq_true] at hx'
+      obtain ⟨⟨ha, hanc⟩, hn⟩ := hx'
+      have htn := trailOk2_inner m a n htr hanc
+      have hcolE := valueR_col n false hanc .root 0 (0 + m.gap + 1 + a.length + 1) (0 + 0 + 1 + a.length) { m with gap := 0 }
+      have hv : (PNode.anchored a n).valueR .root 0 0 m =
+          (spaces (m.gap + 1) ++ ('&' :: a) ++ (n.valueR .root 0 (0 + 0 + 1 + a.length) { m with gap := 0 }).1,
+            (n.valueR .root 0 (0 + 0 + 1 + a.length) { m with gap := 0 }).2) := by
+        rw [← hcolE]; rfl
+      have hline : dropSpaces ((PNode.anchored a n).valueR .root 0 0 m).1
+          = '&' :: (a ++ (n.valueR .root 0 (0 + 0 + 1 + a.length) { m with gap := 0 }).1) := by
+        rw [hv]
+        have := dropSpaces_spaces (m.gap + 1) '&' (a ++ (n.valueR .root 0 (0 + 0 + 1 + a.length) { m with gap := 0 }).1) (by decide)
+        simpa only [List.append_assoc, List.cons_append] using this
+      have hpost : ((PNode.anchored a n).valueR .root 0 0 m).2 = (n.valueR .root 0 (0 + 0 + 1 + a.length) { m with gap := 0 }).2 := by
+        rw [hv]
+      have hnm := nm_value n .root hn 0 (0 + 0 + 1 + a.length) { m with gap := 0 } htn
+      obtain ⟨hs, _, _⟩ := canon_value n .root hn 0 (0 + 0 + 1 + a.length) { m with gap := 0 } htn
+      obtain ⟨hkey, hdash⟩ := value_first_facts n .root hn hanc 0 (0 + 0 + 1 + a.length) { m with gap := 0 } htn
+      refine ⟨[], ⟨0, '&' :: (a ++ (n.valueR .root 0 (0 + 0 + 1 + a.length) { m with gap := 0 }).1)⟩,
+        (n.valueR .root 0 (0 + 0 + 1 + a.length) { m with gap := 0 }).2, ?_, by simp, by simp [Line.isFiller], by simp, by simp, ?_, ?_⟩
+      · simp [bareLines, PNode.isBlockColl, hline, hpost]
+      · intro q hq
+        rcases List.mem_cons.mp hq with rfl | hq
+        · exact notMark_of_head 0 '&' _ (by decide) (by decide)
+        · exact hnm q hq
+      · unfold parseDocBody
+        simp only [Option.getD_none, List.length_nil, Nat.zero_mul, Nat.add_zero, fuelOf_wt, List.cons_append]
+        obtain ⟨F, hF⟩ := fuel_split (wt (⟨0, '&' :: (a ++ (n.valueR .root 0 (0 + 0 + 1 + a.length) { m with gap := 0 }).1)⟩ ::
+            ((n.valueR .root 0 (0 + 0 + 1 + a.length) { m with gap := 0 }).2 ++ fillLines 0 fs)))
+        rw [hF]
+        have hbn := bneed_value n .root hn 0 (0 + 0 + 1 + a.length) { m with gap := 0 }
+        have hfuel : n.bneed ≤ F := by
+          simp only [wt_cons, wt_append, List.length_cons, List.length_append] at hF
+          omega
+        obtain ⟨rest', hp, hsk⟩ := afterL n .root hn 0 (0 + 0 + 1 + a.length) { m with gap := 0 } htn (Or.inr rfl) (fun _ => rfl)
+          false (by intro hc; rw [anchorable_noncompact n false hanc] at hc; cases hc) F (fillLines 0 fs) hfuel
+          (by simp [Bound, skipFill_fillOnly]) (tail_fillOnly 0 _ fs (by simpa [PNode.endsKeep] using hk))
+        simp only [pnOf, if_true, show (Ctx.root == Ctx.map) = false by rfl] at hp
+        have hpa := parseAfter_anchor F 0 0 0 false false a _ ((n.valueR .root 0 (0 + 0 + 1 + a.length) { m with gap := 0 }).2 ++ fillLines 0 fs)
+          ha hs hkey hdash
+        simp only [spaces, List.replicate_zero, List.nil_append] at hpa
+        rw [hp] at hpa
+        rw [parseBlock_first (F + 1) '&' _ _ _ _ (by decide) (by decide) (by simp [isDash]) (by simp [splitKey]) hpa]
+        simp only [hsk, skipFill_fillOnly, List.isEmpty_nil, if_true, PNode.node]
     | _ => simp [PNode.isInline2] at hi
 
 
@@ -932,16 +1002,20 @@ theorem stream_canon (ds : List PDoc) (h : ∀ d ∈ ds, docOk2 d = true) : ∀ 
   obtain ⟨d, hd, hld⟩ := List.mem_flatMap.mp hl
   exact doc_lines_canon d (h d hd) l hld
 
-theorem resolveDocs_nodes (ds : List PDoc) (h : ∀ d ∈ ds, docOk2 d = true) :
+theorem resolveDocs_nodes (ds : List PDoc) (h : ∀ d ∈ ds, docOk2 d = true) (hsc : ∀ d ∈ ds, (d.root.scope []).isSome = true) :
     resolveDocs (ds.map (·.root.node)) = .ok (ds.map (·.root.tree)) := by
   induction ds with
   | nil => rfl
   | cons d ds ih =>
     have hd := h d (List.mem_cons_self ..)
     simp only [docOk2, Bool.and_eq_true] at hd
-    have := ih (fun x hx => h x (List.mem_cons_of_mem _ hx))
-    simp only [List.map_cons, resolveDocs, resolveB d.root .root hd.1.1.2 [], this]
-    rfl
+    have := ih (fun x hx => h x (List.mem_cons_of_mem _ hx)) (fun x hx => hsc x (List.mem_cons_of_mem _ hx))
+    have hs := hsc d (List.mem_cons_self ..)
+    cases he : d.root.scope [] with
+    | none => rw [he] at hs; cases hs
+    | some env' =>
+      simp only [List.map_cons, resolveDocs, resolveB d.root .root hd.1.1.2 [] env' he, this]
+      rfl
 
 /-- Every document has a line of its own (and one more with `...`). -/
 theorem doc_lines_length (d : PDoc) (h : docOk2 d = true) : (if d.endMarker then 2 else 1) ≤ d.lines.length := by
@@ -1024,7 +1098,8 @@ theorem stream_first (ds : List PDoc) (first : Bool) (h : docsOk2 first ds = tru
           rw [← hL.1]; exact filler_head p (hpre p (List.mem_cons_self ..))
 
 /-- `render_load` on characters for every stream of documents without anchors / aliases. -/
-theorem loadChars_docs (s : PStream) (h : docsOk2 true s.docs = true) : loadChars s.chars = .ok s.trees := by
+theorem loadChars_docs (s : PStream) (h : docsOk2 true s.docs = true)
+    (hsc : ∀ d ∈ s.docs, (d.root.scope []).isSome = true) : loadChars s.chars = .ok s.trees := by
   have he := docsOk2_each s.docs true h
   have hcan := stream_canon s.docs he
   have hlf := lfChars_lines s h
@@ -1051,65 +1126,69 @@ theorem loadChars_docs (s : PStream) (h : docsOk2 true s.docs = true) : loadChar
   rw [hbom, linesOf_joinRaw _ hcan]
   unfold loadLines
   rw [parseDocs_stream s.docs true h _ (by have := docsNeed_le s.docs he; omega)]
-  simp only [resolveDocs_nodes s.docs he]
+  simp only [resolveDocs_nodes s.docs he hsc]
   rfl
 
 
 /-! ## From `admissible` to the proof-side predicates -/
 
-mutual
-/-- No anchors and no aliases. -/
-def PNode.noAnchors : PNode → Bool
-  | .anchored _ _ => false
-  | .alias _ _ => false
-  | .seq _ _ _ items => items.noAnchors
-  | .map _ _ _ es => es.noAnchors
-  | _ => true
-def PItems.noAnchors : PItems → Bool
-  | .nil => true
-  | .cons _ x r => x.noAnchors && r.noAnchors
-def PEntries.noAnchors : PEntries → Bool
-  | .nil => true
-  | .cons _ _ _ x r => x.noAnchors && r.noAnchors
-end
+theorem anchorable_eq (flow : Bool) (n : PNode) :
+    (match n with
+      | .anchored _ _ => false
+      | .alias _ _ => false
+      | .seq false _ c _ => !c
+      | .map false _ c _ => !c
+      | .null v => !flow || v % 5 != 4
+      | _ => true) = n.anchorable flow := by
+  cases n with
+  | seq fl st c items => cases fl <;> rfl
+  | map fl st c es => cases fl <;> rfl
+  | _ => rfl
 
 mutual
-theorem fl2_of_ok : (x : PNode) → ∀ (ctx : Ctx) (m : Meta), x.ok true ctx m = true → x.noAnchors = true → x.fl2 = true
-  | .null v, _, _, h, _ => by simpa [PNode.ok, PNode.fl2, PNode.sc2] using h
-  | .bool _ _, _, _, _, _ => rfl
-  | .int _ _, _, _, _, _ => rfl
-  | .str s st, ctx, m, h, _ => by
+theorem fl2_of_ok : (x : PNode) → ∀ (ctx : Ctx) (m : Meta), x.ok true ctx m = true → x.fl2 = true
+  | .null v, _, _, h => by simpa [PNode.ok, PNode.fl2, PNode.sc2] using h
+  | .bool _ _, _, _, _ => rfl
+  | .int _ _, _, _, _ => rfl
+  | .str s st, ctx, m, h => by
     cases st <;> simp_all [PNode.ok, PNode.fl2, PNode.sc2, strOk]
-  | .seq fl st c items, ctx, m, h, hn => by
+  | .seq fl st c items, ctx, m, h => by
     cases fl with
     | true =>
       simp only [PNode.ok, if_true] at h
       simp only [PNode.fl2]
-      exact fl2_items_of_ok items h (by simpa [PNode.noAnchors] using hn)
+      exact fl2_items_of_ok items h
     | false => simp [PNode.ok] at h
-  | .map fl st c es, ctx, m, h, hn => by
+  | .map fl st c es, ctx, m, h => by
     cases fl with
     | true =>
       simp only [PNode.ok, if_true, Bool.and_eq_true] at h
       simp only [PNode.fl2]
-      exact fl2_entries_of_ok es h.1 (by simpa [PNode.noAnchors] using hn)
+      exact fl2_entries_of_ok es h.1
     | false => simp [PNode.ok] at h
-  | .anchored _ _, _, _, _, hn => by simp [PNode.noAnchors] at hn
-  | .alias _ _, _, _, _, hn => by simp [PNode.noAnchors] at hn
-theorem fl2_items_of_ok : (items : PItems) → items.ok true = true → items.noAnchors = true → items.fl2 = true
-  | .nil, _, _ => rfl
-  | .cons m x r, h, hn => by
+  | .anchored a n, ctx, m, h => by
+    simp only [PNode.ok, Bool.and_eq_true] at h
+    obtain ⟨⟨ha, hn⟩, hm⟩ := h
+    have hanc : n.anchorable true = true := by
+      cases n with
+      | seq fl st c items => cases fl <;> simpa [PNode.anchorable] using hm
+      | map fl st c es => cases fl <;> simpa [PNode.anchorable] using hm
+      | _ => simpa [PNode.anchorable] using hm
+    simp only [PNode.fl2, Bool.and_eq_true]
+    exact ⟨⟨ha, hanc⟩, fl2_of_ok n ctx _ hn⟩
+  | .alias a _, _, _, h => by simpa [PNode.ok, PNode.fl2] using h
+theorem fl2_items_of_ok : (items : PItems) → items.ok true = true → items.fl2 = true
+  | .nil, _ => rfl
+  | .cons m x r, h => by
     simp only [PItems.ok, Bool.and_eq_true] at h
-    simp only [PItems.noAnchors, Bool.and_eq_true] at hn
     simp only [PItems.fl2, Bool.and_eq_true]
-    exact ⟨fl2_of_ok x .seq m h.1.1.2 hn.1, fl2_items_of_ok r h.1.2 hn.2⟩
-theorem fl2_entries_of_ok : (es : PEntries) → es.ok true = true → es.noAnchors = true → es.fl2 = true
-  | .nil, _, _ => rfl
-  | .cons m k ks x r, h, hn => by
+    exact ⟨fl2_of_ok x .seq m h.1.1.2, fl2_items_of_ok r h.1.2⟩
+theorem fl2_entries_of_ok : (es : PEntries) → es.ok true = true → es.fl2 = true
+  | .nil, _ => rfl
+  | .cons m k ks x r, h => by
     simp only [PEntries.ok, Bool.and_eq_true] at h
-    simp only [PEntries.noAnchors, Bool.and_eq_true] at hn
     simp only [PEntries.fl2, Bool.and_eq_true]
-    exact ⟨⟨h.1.1.1.1.2, fl2_of_ok x .map m h.1.1.2 hn.1⟩, fl2_entries_of_ok r h.1.2 hn.2⟩
+    exact ⟨⟨h.1.1.1.1.2, fl2_of_ok x .map m h.1.1.2⟩, fl2_entries_of_ok r h.1.2⟩
 end
 
 theorem trailOk2_of (m : Meta) (x : PNode) (hm : metaOk m = true) (hc : x.isCompact = true → m.trail = none) :
@@ -1127,25 +1206,24 @@ theorem trailOk2_of (m : Meta) (x : PNode) (hm : metaOk m = true) (hc : x.isComp
     | true => have := hc hx; rw [ht] at this; cases this
 
 mutual
-theorem bl2_of_ok : (x : PNode) → ∀ (ctx : Ctx) (m : Meta), x.ok false ctx m = true → x.noAnchors = true →
+theorem bl2_of_ok : (x : PNode) → ∀ (ctx : Ctx) (m : Meta), x.ok false ctx m = true →
     x.bl2 ctx = true ∧ (x.isCompact = true → m.trail = none)
-  | .null v, _, _, _, _ => ⟨by simp [PNode.bl2, PNode.sc2], by simp [PNode.isCompact]⟩
-  | .bool _ _, _, _, _, _ => ⟨rfl, by simp [PNode.isCompact]⟩
-  | .int _ _, _, _, _, _ => ⟨rfl, by simp [PNode.isCompact]⟩
-  | .str s st, ctx, m, h, _ => by
+  | .null v, _, _, _ => ⟨by simp [PNode.bl2, PNode.sc2], by simp [PNode.isCompact]⟩
+  | .bool _ _, _, _, _ => ⟨rfl, by simp [PNode.isCompact]⟩
+  | .int _ _, _, _, _ => ⟨rfl, by simp [PNode.isCompact]⟩
+  | .str s st, ctx, m, h => by
     refine ⟨?_, by simp [PNode.isCompact]⟩
     cases st <;> simp_all [PNode.ok, PNode.bl2, PNode.sc2, strOk]
-  | .seq fl st c items, ctx, m, h, hn => by
-    have hn' : items.noAnchors = true := by simpa [PNode.noAnchors] using hn
+  | .seq fl st c items, ctx, m, h => by
     cases fl with
     | true =>
       simp only [PNode.ok, if_true] at h
-      exact ⟨by simp only [PNode.bl2, PNode.fl2]; exact fl2_items_of_ok items h hn', by simp [PNode.isCompact]⟩
+      exact ⟨by simp only [PNode.bl2, PNode.fl2]; exact fl2_items_of_ok items h, by simp [PNode.isCompact]⟩
     | false =>
       simp only [PNode.ok, Bool.false_eq_true, if_false, Bool.not_false, Bool.true_and, Bool.and_eq_true,
         Bool.not_eq_true'] at h
       obtain ⟨⟨hnil, hi⟩, hc⟩ := h
-      have hb := bl2_items_of_ok items hi hn'
+      have hb := bl2_items_of_ok items hi
       cases c with
       | false =>
         simp only [Bool.false_eq_true, if_false, Bool.or_eq_true, Bool.and_eq_true, decide_eq_true_eq] at hc
@@ -1161,17 +1239,16 @@ theorem bl2_of_ok : (x : PNode) → ∀ (ctx : Ctx) (m : Meta), x.ok false ctx m
         refine ⟨?_, fun _ => hc.2⟩
         simp only [PNode.bl2, PItems.startOk, hnil, Bool.not_false, Bool.true_and, Bool.not_true, Bool.false_or, hc.1.2, hb,
           if_true, hc.1.1, Bool.and_self]
-  | .map fl st c es, ctx, m, h, hn => by
-    have hn' : es.noAnchors = true := by simpa [PNode.noAnchors] using hn
+  | .map fl st c es, ctx, m, h => by
     cases fl with
     | true =>
       simp only [PNode.ok, if_true, Bool.and_eq_true] at h
-      exact ⟨by simp only [PNode.bl2, PNode.fl2]; exact fl2_entries_of_ok es h.1 hn', by simp [PNode.isCompact]⟩
+      exact ⟨by simp only [PNode.bl2, PNode.fl2]; exact fl2_entries_of_ok es h.1, by simp [PNode.isCompact]⟩
     | false =>
       simp only [PNode.ok, Bool.false_eq_true, if_false, Bool.not_false, Bool.true_and, Bool.and_eq_true,
         Bool.not_eq_true'] at h
       obtain ⟨⟨⟨hnil, hi⟩, _⟩, hc⟩ := h
-      have hb := bl2_entries_of_ok es hi hn'
+      have hb := bl2_entries_of_ok es hi
       cases c with
       | false =>
         simp only [Bool.false_eq_true, if_false, Bool.or_eq_true, Bool.and_eq_true, decide_eq_true_eq] at hc
@@ -1186,36 +1263,46 @@ theorem bl2_of_ok : (x : PNode) → ∀ (ctx : Ctx) (m : Meta), x.ok false ctx m
         refine ⟨?_, fun _ => hc.2⟩
         simp only [PNode.bl2, PEntries.startOk, hnil, Bool.not_false, Bool.true_and, Bool.not_true, Bool.false_or, hc.1.2, hb,
           if_true, hc.1.1, Bool.and_self]
-  | .anchored _ _, _, _, _, hn => by simp [PNode.noAnchors] at hn
-  | .alias _ _, _, _, _, hn => by simp [PNode.noAnchors] at hn
-theorem bl2_items_of_ok : (items : PItems) → items.ok false = true → items.noAnchors = true → items.bl2 = true
-  | .nil, _, _ => rfl
-  | .cons m x r, h, hn => by
+  | .anchored a n, ctx, m, h => by
+    simp only [PNode.ok, Bool.and_eq_true] at h
+    obtain ⟨⟨ha, hn⟩, hm⟩ := h
+    have hanc : n.anchorable false = true := by
+      cases n with
+      | seq fl st c items => cases fl <;> simpa [PNode.anchorable] using hm
+      | map fl st c es => cases fl <;> simpa [PNode.anchorable] using hm
+      | _ => simpa [PNode.anchorable] using hm
+    obtain ⟨hb, _⟩ := bl2_of_ok n ctx _ hn
+    refine ⟨?_, by simp [PNode.isCompact]⟩
+    simp only [PNode.bl2, Bool.and_eq_true]
+    exact ⟨⟨ha, hanc⟩, hb⟩
+  | .alias a _, _, _, h => ⟨by simpa [PNode.ok, PNode.bl2] using h, by simp [PNode.isCompact]⟩
+theorem bl2_items_of_ok : (items : PItems) → items.ok false = true → items.bl2 = true
+  | .nil, _ => rfl
+  | .cons m x r, h => by
     simp only [PItems.ok, Bool.and_eq_true] at h
-    simp only [PItems.noAnchors, Bool.and_eq_true] at hn
     obtain ⟨⟨⟨hm, hx⟩, hr⟩, hk⟩ := h
-    obtain ⟨hb, hc⟩ := bl2_of_ok x .seq m hx hn.1
+    obtain ⟨hb, hc⟩ := bl2_of_ok x .seq m hx
     have hm' := hm
     simp only [metaOk, Bool.and_eq_true] at hm'
     simp only [PItems.bl2, itemFill, Bool.and_eq_true]
-    exact ⟨⟨⟨⟨hm'.1.1, hk⟩, trailOk2_of m x hm hc⟩, hb⟩, bl2_items_of_ok r hr hn.2⟩
-theorem bl2_entries_of_ok : (es : PEntries) → es.ok false = true → es.noAnchors = true → es.bl2 = true
-  | .nil, _, _ => rfl
-  | .cons m k ks x r, h, hn => by
+    exact ⟨⟨⟨⟨hm'.1.1, hk⟩, trailOk2_of m x hm hc⟩, hb⟩, bl2_items_of_ok r hr⟩
+theorem bl2_entries_of_ok : (es : PEntries) → es.ok false = true → es.bl2 = true
+  | .nil, _ => rfl
+  | .cons m k ks x r, h => by
     simp only [PEntries.ok, Bool.and_eq_true] at h
-    simp only [PEntries.noAnchors, Bool.and_eq_true] at hn
     obtain ⟨⟨⟨⟨⟨hm, hkey⟩, _⟩, hx⟩, hr⟩, hk⟩ := h
-    obtain ⟨hb, hc⟩ := bl2_of_ok x .map m hx hn.1
+    obtain ⟨hb, hc⟩ := bl2_of_ok x .map m hx
     have hm' := hm
     simp only [metaOk, Bool.and_eq_true] at hm'
     simp only [PEntries.bl2, entryFill, Bool.and_eq_true]
-    exact ⟨⟨⟨⟨⟨hm'.1.1, hk⟩, trailOk2_of m x hm hc⟩, hkey⟩, hb⟩, bl2_entries_of_ok r hr hn.2⟩
+    exact ⟨⟨⟨⟨⟨hm'.1.1, hk⟩, trailOk2_of m x hm hc⟩, hkey⟩, hb⟩, bl2_entries_of_ok r hr⟩
 end
 
-theorem docOk2_of_ok (first : Bool) (d : PDoc) (h : d.ok first = true) (hn : d.root.noAnchors = true) : docOk2 d = true := by
+theorem docOk2_of_ok (first : Bool) (d : PDoc) (h : d.ok first = true) : docOk2 d = true ∧ (d.root.scope []).isSome = true := by
   simp only [PDoc.ok, Bool.and_eq_true] at h
-  obtain ⟨⟨⟨⟨⟨⟨hfill, hmeta⟩, _⟩, hroot⟩, _⟩, hnull⟩, _⟩ := h
-  obtain ⟨hb, hc⟩ := bl2_of_ok d.root .root d.rootMeta hroot hn
+  obtain ⟨⟨⟨⟨⟨⟨hfill, hmeta⟩, _⟩, hroot⟩, hscope⟩, hnull⟩, _⟩ := h
+  obtain ⟨hb, hc⟩ := bl2_of_ok d.root .root d.rootMeta hroot
+  refine ⟨?_, hscope⟩
   simp only [docOk2, Bool.and_eq_true, Bool.or_eq_true]
   refine ⟨⟨⟨hfill, hb⟩, trailOk2_of _ _ hmeta hc⟩, ?_⟩
   by_cases hm : d.marker = true
@@ -1231,22 +1318,27 @@ theorem docOk2_of_ok (first : Bool) (d : PDoc) (h : d.ok first = true) (hn : d.r
     | _ => rfl
 
 theorem docsOk2_of_ok : ∀ (ds : List PDoc) (first : Bool), docsOk first ds = true →
-    (∀ d ∈ ds, d.root.noAnchors = true) → docsOk2 first ds = true
-  | [], _, _, _ => rfl
-  | d :: ds, first, h, hn => by
+    docsOk2 first ds = true ∧ ∀ d ∈ ds, (d.root.scope []).isSome = true
+  | [], _, _ => ⟨rfl, by intro d hd; cases hd⟩
+  | d :: ds, first, h => by
     simp only [docsOk, Bool.and_eq_true] at h
     obtain ⟨⟨hd, hds⟩, hk⟩ := h
     have hd' := hd
     simp only [PDoc.ok, Bool.and_eq_true] at hd'
-    simp only [docsOk2, Bool.and_eq_true]
-    exact ⟨⟨⟨docOk2_of_ok first d hd (hn d (List.mem_cons_self ..)), hd'.1.1.1.1.2⟩,
-      docsOk2_of_ok ds false hds (fun x hx => hn x (List.mem_cons_of_mem _ hx))⟩, hk⟩
+    obtain ⟨h1, h2⟩ := docOk2_of_ok first d hd
+    obtain ⟨i1, i2⟩ := docsOk2_of_ok ds false hds
+    refine ⟨?_, ?_⟩
+    · simp only [docsOk2, Bool.and_eq_true]
+      exact ⟨⟨⟨h1, hd'.1.1.1.1.2⟩, i1⟩, hk⟩
+    · intro x hx
+      rcases List.mem_cons.mp hx with rfl | hx
+      · exact h2
+      · exact i2 x hx
 
-/-- `render_load` on characters for every admissible stream without anchors and aliases. -/
-theorem loadChars_admissible (s : PStream) (ha : admissible s = true) (hn : ∀ d ∈ s.docs, d.root.noAnchors = true) :
-    loadChars s.chars = .ok s.trees :=
-  loadChars_docs s (docsOk2_of_ok s.docs true ha hn)
-
+/-- `render_load` on characters: every admissible stream loads back to its trees. -/
+theorem loadChars_admissible (s : PStream) (ha : admissible s = true) : loadChars s.chars = .ok s.trees := by
+  obtain ⟨h1, h2⟩ := docsOk2_of_ok s.docs true ha
+  exact loadChars_docs s h1 h2
 
 /-- One bare document (no `---`, no `...`, no filler lines before it, no comment on the root). -/
 def bareStream (x : PNode) (g : Nat) : PStream := { docs := [{ root := x, rootMeta := { gap := g } }] }
@@ -1254,5 +1346,11 @@ def bareStream (x : PNode) (g : Nat) : PStream := { docs := [{ root := x, rootMe
 theorem bareStream_ok (x : PNode) (g : Nat) (h : x.bl2 .root = true) (hb : bareOk x = true) :
     docsOk2 true (bareStream x g).docs = true := by
   simp [bareStream, docsOk2, docOk2, h, hb, trailOk2]
+
+theorem bareStream_scope (x : PNode) (g : Nat) (hs : (x.scope []).isSome = true) :
+    ∀ d ∈ (bareStream x g).docs, (d.root.scope []).isSome = true := by
+  intro d hd
+  simp only [bareStream, List.mem_singleton] at hd
+  subst hd; exact hs
 
 end SV.YamlRef
